@@ -156,20 +156,38 @@ fn ref_forward<S: Scalar>(layers: &[LayerSpec], params: &[[(Vec<usize>, Vec<S>);
     Some((dims, vals))
 }
 
-fn ref_loss<S: Scalar>(cost: CostKind, out: (&[usize], &[S]), target: &[f64]) -> S {
+/// The documented cost formulas; the target may be broadcast (right-aligned) against the output.
+fn ref_loss<S: Scalar>(cost: CostKind, out: (&[usize], &[S]), target: (&[usize], &[f64])) -> S {
     let n = out.1.len();
     let mut s = S::c(0.0);
+    let mut idx = vec![0usize; out.0.len()];
+    let tgt = |i: usize, idx: &mut Vec<usize>| -> f64 {
+        if target.1.len() == n && target.0 == out.0 {
+            return target.1[i];
+        }
+        let mut f = i;
+        for k in (0..out.0.len()).rev() {
+            idx[k] = f % out.0[k];
+            f /= out.0[k];
+        }
+        let off = out.0.len() - target.0.len();
+        let mut t = 0;
+        for (j, d) in target.0.iter().enumerate() {
+            t = t * d + if *d == 1 { 0 } else { idx[off + j] };
+        }
+        target.1[t]
+    };
     match cost {
         CostKind::Mse => {
             for i in 0..n {
-                let d = S::c(target[i]).sub(out.1[i]);
+                let d = S::c(tgt(i, &mut idx)).sub(out.1[i]);
                 s = s.add(d.mul(d).scale(1.0 / n as f64));
             }
         }
         CostKind::CrossEntropy => {
             let b = out.0[0] as f64;
             for i in 0..n {
-                s = s.add(S::c(-target[i]).mul(out.1[i].ln()).scale(1.0 / b));
+                s = s.add(S::c(-tgt(i, &mut idx)).mul(out.1[i].ln()).scale(1.0 / b));
             }
         }
     }
@@ -192,11 +210,11 @@ pub struct RefIter {
     pub min_ln_arg: f64,
 }
 
-pub fn reference_iteration(layers: &[LayerSpec], cost: CostKind, params: &Params, x: (&[usize], &[f64]), target: &[f64]) -> Option<RefIter> {
+pub fn reference_iteration(layers: &[LayerSpec], cost: CostKind, params: &Params, x: (&[usize], &[f64]), target: (&[usize], &[f64])) -> Option<RefIter> {
     let mut margin = f64::INFINITY;
     let pf = params_as::<f64>(params);
     let (od, ov) = ref_forward::<f64>(layers, &pf, x, &mut margin)?;
-    if ov.len() != target.len() {
+    if target.0.len() > od.len() || crate::refmodel::broadcast_dims(target.0, &od).as_deref() != Some(&od[..]) || numel(target.0) != target.1.len() {
         return None;
     }
     let loss = ref_loss::<f64>(cost, (&od, &ov), target);
@@ -748,10 +766,16 @@ fn model_span(sim: &mut Sim, src: &mut dyn Source, rec: &mut Vec<Ev>, model: &mu
                     ts.x = Some((e.0, e.1));
                     ts.out_dims_real = Some((e.2, e.3));
                 }
-                let ok = (ts.phase == Phase::AfterFwd || accumulating) && ts.out_dims_real.as_ref().map(|o| o.0 == *dims && o.1.len() == vals.len()).unwrap_or(false);
+                // the target has the output's shape or is broadcast against it (a target row for a whole batch)
+                let ok = (ts.phase == Phase::AfterFwd || accumulating)
+                    && numel(dims) == vals.len()
+                    && ts.out_dims_real.as_ref().map(|o| dims.len() <= o.0.len() && crate::refmodel::broadcast_dims(dims, &o.0).as_deref() == Some(&o.0[..])).unwrap_or(false);
                 if !ok {
                     skip(sim, &ev, "backward not legal here");
                     continue;
+                }
+                if ts.out_dims_real.as_ref().map(|o| o.0 != *dims).unwrap_or(false) {
+                    sim.fault("F12_target_broadcast_against_output");
                 }
                 if accumulating {
                     sim.fault("F4_gradient_accumulation_over_two_batches");
@@ -765,7 +789,7 @@ fn model_span(sim: &mut Sim, src: &mut dyn Source, rec: &mut Vec<Ev>, model: &mu
                 let (xd, xv) = ts.x.clone().unwrap();
                 let before = ts.before.clone().unwrap();
                 let tv = to_f64(&crate::world::to_float(vals));
-                let reference = reference_iteration(&ts.layers, ts.cost, &before, (&xd, &xv), &tv);
+                let reference = reference_iteration(&ts.layers, ts.cost, &before, (&xd, &xv), (dims, &tv));
                 // domain guard for the cross-entropy logarithm: outputs must be comfortably positive
                 if let Some(r) = &reference {
                     if r.min_ln_arg <= 1e-6 || !r.loss.is_finite() || r.loss.abs() > 1e6 || r.out.iter().any(|o| !o.is_finite()) {
